@@ -97,7 +97,12 @@ def build(p):
             if times[i] == 0:
                 resolve(i)
         E.upoint()
-        out = f_apply(futs[0], *futs[1:npos + 1], **{kwnames[j]: futs[npos + 1 + j] for j in range(nkw)})
+        given = list(futs)
+        for i in p.get("proxy", ()):
+            if 0 <= i <= n:
+                from more_executors.futures import f_proxy
+                given[i] = f_proxy(futs[i])      # the input is handed over as an f_proxy of the real future
+        out = f_apply(given[0], *given[1:npos + 1], **{kwnames[j]: given[npos + 1 + j] for j in range(nkw)})
         E.SCHED.track(0, out)
 
         def completer(t):
